@@ -258,7 +258,7 @@ func init() {
 			}
 		}})
 
-	register(&Rule{ID: "C06.hook", Props: []string{"C06", "C08"}, Floor: 1,
+	register(&Rule{ID: "C06.hook", Props: []string{"C06", "C08"}, Floor: 2,
 		Doc: "the slash hook passes validator and fraction through unchanged",
 		Run: func(e *Engine, r *RuleRun) {
 			fn := r.Need("keeper.Hooks.BeforeValidatorSlashed")
@@ -269,6 +269,11 @@ func init() {
 			c := r.One(fn, "slash", "keeper.Keeper.SlashValidator")
 			if c != nil {
 				r.Check(argT(fa, c, 1).String() == "$valAddr" && argT(fa, c, 2).String() == "$fraction", FuncKey(fn), "arguments passed through", "SlashValidator(ctx, valAddr, fraction)", "the hook slashes "+argT(fa, c, 1).String()+" by "+argT(fa, c, 2).String(), r.P(c))
+				if trail := fa.EntryMustPass([]ssa.Instruction{c}); trail != nil {
+					r.Bad(FuncKey(fn), "every slash reported by x/staking reaches SlashValidator", "the hook can return success without calling SlashValidator: bonded shares, pending undelegations and pending redelegations of the validator (which are found through their own indexes, not through the validator's share record) keep their full value although x/staking slashed the validator", trail, r.P(c))
+				} else {
+					r.OK(FuncKey(fn), "every slash reported by x/staking reaches SlashValidator", "every success path of the hook passes the call", r.P(c))
+				}
 			}
 		}})
 }
